@@ -37,7 +37,7 @@ def gen_conv(rng, ver, tier):
     m = rng.randint(0, 2)
     turns = rng.randint(2, 3)
     if ver == "v1":
-        mode = rng.choice(["dialog", "dialog", "general", "passthrough", "single_call"])
+        mode = rng.choice(["dialog", "dialog", "general", "passthrough", "single_call", "multi_step"])
         spec = {"ver": "v1", "k": k, "m": m, "mode": mode, "exc": rng.random() < 0.2}
         spec["in_shapes"] = [rng.choice(["allowed", "mask", "v"]) for _ in range(k)]
         spec["out_shapes"] = [rng.choice(["allowed", "v"]) for _ in range(m)]
